@@ -427,6 +427,21 @@ tuple_sample!(A 0, B 1, C 2, D 3, E 4, F 5, G 6, H 7);
 tuple_sample!(A 0, B 1, C 2, D 3, E 4, F 5, G 6, H 7, I 8);
 tuple_sample!(A 0, B 1, C 2, D 3, E 4, F 5, G 6, H 7, I 8, J 9);
 
+/// A user-defined type with its own `heap_size` and the trait's default bulk helpers: a `Copy` handle (no drop
+/// glue) that reports the bytes it stands for elsewhere — legal, and nothing the crate may second-guess.
+#[derive(Clone, Copy, PartialEq, Eq, Hash, PartialOrd, Ord, Debug)]
+pub struct Handle(pub u32);
+impl lru_mem::HeapSize for Handle {
+    fn heap_size(&self) -> usize { self.0 as usize }
+}
+impl Sample for Handle {
+    fn ty() -> String { format!("user {}", size_of::<Handle>()) }
+    fn val(&self) -> String { format!("buf {}", self.0) }
+}
+impl Gen for Handle {
+    fn gen(rng: &mut Rng, _d: u32) -> Handle { Handle(if rng.chance(1, 4) { 0 } else { rng.below(200) as u32 }) }
+}
+
 pub struct MemOut {
     pub ops: std::io::BufWriter<std::fs::File>,
     pub obs: std::io::BufWriter<std::fs::File>,
@@ -466,13 +481,15 @@ pub fn run_type<T: Gen + MemSize + 'static>(out: &mut MemOut, rng: &mut Rng, rou
             out.failures += 1;
             writeln!(out.mon, "FAIL C08 type={} :: mem_size {} != value_size {} + heap_size {} for {}", name, mem, val, heap, desc).unwrap();
         }
+        // what a user type reports is its author's business, not the allocator's (C09 is about std's owned buffers)
         let hashy = ty.contains("hset") || ty.contains("hmap");
+        let user = ty.contains("user ");
         let borrowed = ty.starts_with("ref ");
-        if !hashy && !borrowed && heap as isize != held {
+        if !hashy && !borrowed && !user && heap as isize != held {
             out.failures += 1;
             writeln!(out.mon, "FAIL C09 type={} :: heap_size {} but the allocator holds {} bytes for {}", name, heap, held, desc).unwrap();
         }
-        if hashy && heap as isize > held {
+        if hashy && !user && heap as isize > held {
             out.failures += 1;
             writeln!(out.mon, "FAIL C09 type={} :: heap_size {} exceeds the {} bytes held from the allocator for {}", name, heap, held, desc).unwrap();
         }
@@ -569,6 +586,16 @@ pub fn run_all(out: &mut MemOut, rng: &mut Rng, rounds: usize) {
         Vec<BinaryHeap<String>>, BinaryHeap<Option<String>>, HashMap<String, Result<u8, String>>, HashMap<u8, Range<String>>,
         HashSet<Option<String>>, Option<Result<String, Vec<u8>>>, (Result<String, String>, Option<Vec<u8>>),
         Vec<(Range<String>, Result<u8, String>)>, Vec<Wrapping<u64>>, Vec<Box<Result<String, u8>>>,
+        // payloads whose exact-size helper multiplies by the iterator's length (Box of a sized type), behind wrappers
+        // that may hold nothing
+        Vec<Option<Box<u64>>>, Vec<Option<Box<String>>>, [Option<Box<u32>>; 3], BinaryHeap<Option<Box<u8>>>,
+        Vec<Option<(Box<u8>, u8)>>, Vec<Option<[Box<u8>; 2]>>, Vec<Option<Wrapping<Box<u32>>>>, Box<[Option<Box<u64>>]>,
+        Vec<Result<Box<u64>, Box<u8>>>, Vec<Wrapping<Box<u64>>>, Vec<Range<Box<u64>>>, Vec<(Option<Box<u64>>, Option<Box<u8>>)>,
+        Vec<Option<Option<Box<u64>>>>, Vec<[Option<Box<u8>>; 2]>, Vec<Box<Option<Box<u64>>>>, Option<Vec<Option<Box<u64>>>>,
+        // a user-defined type (own heap_size, default helpers, no drop glue) alone and inside every kind of container
+        Handle, Vec<Handle>, [Handle; 3], Box<[Handle]>, (Handle, u8), Option<Handle>, Vec<Option<Handle>>, HashMap<u8, Handle>,
+        Vec<(Box<Handle>, u8)>, Box<Handle>, Vec<[Handle; 2]>, BinaryHeap<Handle>, HashSet<Handle>, Wrapping<Handle>, Vec<Wrapping<Handle>>,
+        Range<Handle>, Vec<Result<Handle, String>>, Mutex<Vec<Handle>>,
     );
 }
 
